@@ -324,14 +324,8 @@ class KRow(KBase, Row):
         self._cmap = []
         self._indexes = {"_cmap": {}, "_tmap": {}, "_rmap": {}}
 
-    @property
-    def clone(self):
-        c = KRow(_node=self._n.deepcopy())
-        c.y = self.y
-        c._rmap = self._rmap[:]
-        c._tmap = self._tmap[:]
-        c._cmap = self._cmap[:]
-        return c
+    # `clone` is the REAL Row.clone property (row.py): it calls Element.clone.fget(self), which is
+    # re-pointed below to the node-level deep copy, then copies y and the three maps itself.
 
 
 class KTable(KBase, Table):
@@ -354,11 +348,17 @@ class KTable(KBase, Table):
         self._cmap = []
         self._indexes = {"_cmap": {}, "_tmap": {}}
 
-    @property
-    def clone(self):
-        c = KTable(_node=self._n.deepcopy())
-        return c
+    # `clone` is the real Element.clone slot (re-pointed below): Table defines no clone of its own
 
+
+def _element_clone(self):
+    """stand-in for Element.clone (deepcopy of the lxml node under a fresh root + from_tag)"""
+    return wrap(self._n.deepcopy())
+
+
+import odfdo.element as _E  # noqa: E402
+
+_E.Element.clone = property(_element_clone)
 
 R.Cell = IntCell
 T.Cell = IntCell
